@@ -110,7 +110,16 @@ Theorem expression_unfolding_preserves_value : forall (A : alg) e (r : string ->
   wf e -> den r (model_expression e) = den r e.
 Proof. exact model_expression_den. Qed.
 
-(* ... leaves no PoolSum on the builder shape, but is incomplete from nesting depth 3 on *)
+(* ... leaves no PoolSum whenever the intensity nests PoolSums at most 2 deep (the builder shape
+   PoolSum(|sum_t PoolSum(..)|^2, ..)), but is incomplete from nesting depth 3 on *)
+Theorem expression_unfolding_complete_depth2 : forall b idx,
+  wf (PSum b idx) -> depth (PSum b idx) <= 2 -> psum_freeb (model_expression (PSum b idx)) = true.
+Proof. exact model_expression_complete. Qed.
+
+Theorem unfold_poolsums_complete_depth1 : forall e,
+  wf e -> depth e <= 1 -> psum_freeb (unfold_poolsums e) = true.
+Proof. exact unfold_flat_complete. Qed.
+
 Example expression_unfolding_builder_shape :
   wf builder_nest /\ psum_freeb (model_expression builder_nest) = true.
 Proof. exact builder_nest_ok. Qed.
@@ -141,6 +150,8 @@ Print Assumptions cleanup_changes_value_refuted.
 Print Assumptions cleanup_doctest.
 Print Assumptions shadowed_index_inner_wins.
 Print Assumptions expression_unfolding_preserves_value.
+Print Assumptions expression_unfolding_complete_depth2.
+Print Assumptions unfold_poolsums_complete_depth1.
 Print Assumptions expression_unfolding_builder_shape.
 Print Assumptions expression_unfolding_depth3_incomplete.
 Print Assumptions evaluate_duplicate_index_outside_hypothesis.
